@@ -375,6 +375,11 @@ wait:
 	}
 	st.OpenAtReturnSnapshot()
 	out.OpenAtReturn = st.OpenAtReturn
+	for _, rs := range remoteStores {
+		// the queriers of the remote engines of a distributed case count as well
+		rs.OpenAtReturnSnapshot()
+		out.OpenAtReturn += rs.OpenAtReturn
+	}
 	if execPanic != nil {
 		out.Panics = append(out.Panics, verifshim.PanicRec{Val: fmt.Sprint(execPanic), Where: "Exec (escaped)"})
 	}
@@ -395,6 +400,10 @@ wait:
 	out.Mon = opmon.Take()
 	out.Opens, out.Closes = st.Opens, st.Closes
 	out.CloseCnt = st.CloseCounts()
+	for _, rs := range remoteStores {
+		out.CloseCnt = append(out.CloseCnt, rs.CloseCounts()...)
+		out.Fired = append(out.Fired, rs.Fired...)
+	}
 	out.Selects = st.Selects
 	out.Fired = st.Fired
 	return out
